@@ -272,6 +272,40 @@ fn check_disconnect(w: &mut World, ci: usize, t_end_ns: u64) -> bool {
             w.viol("C09", "disconnect-before-reliable-delivered", format!("{} called disconnect() at t={} ms; its peer ({}, address {}) saw Disconnect at t={} ms although {} of {} Reliable packets submitted before the call were not delivered first (first: uid {:?}, {} bytes, submitted at t={} ms)", e_name, td.t_ns / MS, p_name, addr, p_disc.t_ns / MS, missing.len(), obligations, uid, l, t / MS));
         }
     }
+    // a peer that has reported Disconnect keeps the ended connection in mind for 20 s and answers
+    // every repeated request, so that the caller ends with Disconnect (not Error(Timeout)) as long
+    // as the peer is reachable at all
+    {
+        let srv = w.server.addr;
+        for dir in 0..2 {
+            let (p_ev, p_addr, e_addr, p_name, p_gap, p_dropped) = if dir == 0 {
+                (&sev, srv, addr, "server", w.server.max_step_gap_ns, false)
+            } else {
+                (&cev, addr, srv, "client", w.clients[ci].max_step_gap_ns, w.clients[ci].dropped_ns.is_some())
+            };
+            // only a peer that was closed passively lingers (one that asked for the close itself
+            // forgets the connection with the acknowledgement), and only this connection instance
+            if p_dropped || p_ev.iter().any(|e| matches!(e.ev, Ev::AppDrop | Ev::AppDisconnect | Ev::AppDisconnectNow)) {
+                continue;
+            }
+            let p_disc = match p_ev.iter().find(|e| e.ev == Ev::Disconnect) {
+                Some(e) => e.t_ns,
+                None => continue,
+            };
+            let obj_gone = w.clients[ci].dropped_ns.unwrap_or(u64::MAX);
+            let next_obj = w.clients.iter().filter(|c| c.addr == addr && c.created_ns > created).map(|c| c.created_ns).min().unwrap_or(u64::MAX);
+            let until = (p_disc + 18 * SEC).min(t_end_ns.saturating_sub(p_gap + 200 * MS)).min(obj_gone).min(next_obj);
+            let reqs: Vec<u64> = w.delivered.iter().filter(|d| d.src == e_addr && d.dst == p_addr && matches!(d.frame, Some(RFrame::Disconnect)) && d.t_ns > p_disc && d.t_ns <= until).map(|d| d.t_ns).collect();
+            if reqs.is_empty() {
+                continue;
+            }
+            let acks = w.wire.iter().filter(|r| r.src == p_addr && r.dst == e_addr && matches!(r.frame, Some(RFrame::DisconnectAck)) && r.t_ns > p_disc && r.t_ns <= until + p_gap + SEC).count();
+            w.c.inc("c09_repeated_requests_to_lingering_peer");
+            if acks < reqs.len() {
+                w.viol("C09", "repeated-disconnect-request-unanswered", format!("{} (address {}) reported Disconnect at t={} ms; {} further Disconnect requests were delivered to it within the next 18 s (at {:?} ms) but it sent only {} acknowledgements in that time: the caller is left to time out although its peer is reachable", p_name, addr, p_disc / MS, reqs.len(), reqs.iter().map(|t| t / MS).collect::<Vec<_>>(), acks));
+            }
+        }
+    }
     // time budget: from the first Disconnect frame on the wire between the pair
     let srv = w.server.addr;
     // only frames of THIS connection instance: sent by this client object, or by the server after
@@ -1146,7 +1180,10 @@ fn check_active_timeout(w: &mut World, who: &str, steps: &[u64], reads: &[u64], 
 pub fn run_timers(seed: u64, params: &Params, out: &mut ScnOut) {
     let mut rng = Rng::new(seed);
     let verbose = params.flag("verbose");
-    let latency = *rng.pick(&[0u64, 1, 10, 50, 200]);
+    // one scenario in seven is the plain case the keepalive clause is about: a short exchange in
+    // both directions, then a long idle period on a loss-free network with keepalive on both sides
+    let idle_focus = Rng::new(seed ^ 0x1d1e).chance(0.15);
+    let latency = if idle_focus { *rng.pick(&[0u64, 1, 10, 50]) } else { *rng.pick(&[0u64, 1, 10, 50, 200]) };
     let mut net = NetCfg::ideal(latency);
     // handshake duration: SYN or SYN-ACK lost 0..11 times
     let lose_syn = if rng.chance(0.4) { rng.range(0, 11) as u32 } else { 0 };
@@ -1163,8 +1200,8 @@ pub fn run_timers(seed: u64, params: &Params, out: &mut ScnOut) {
     }
     // a blackout (both directions) begins some time after the handshake could have finished
     let blackout_from = rng.range(1, 60) * SEC + rng.below(SEC);
-    let blackout = rng.chance(0.6);
-    let horizon = blackout_from + rng.range(5, 150) * SEC;
+    let blackout = rng.chance(0.6) && !idle_focus;
+    let horizon = blackout_from + if idle_focus { rng.range(60, 200) } else { rng.range(5, 150) } * SEC;
     if blackout {
         net.phases.push(NetPhase { until_ns: blackout_from, loss: 0.0, dup: 0.0, delay_p: 0.0, delay_max_ms: 0, blackout_to_server: false, blackout_to_clients: false });
         let one_way = rng.below(3);
@@ -1182,8 +1219,15 @@ pub fn run_timers(seed: u64, params: &Params, out: &mut ScnOut) {
     ccfg.keepalive_interval_ms = *rng.pick(&[500u64, 2000, 5000, 30_000]);
     ccfg.max_packet_size = ccfg.max_packet_size.min(scfg_ep.max_receive_alloc);
     ccfg.max_receive_alloc = ccfg.max_receive_alloc.max(scfg_ep.max_packet_size);
+    if idle_focus {
+        for c in [&mut scfg_ep, &mut ccfg] {
+            c.keepalive = true;
+            c.keepalive_interval_ms = *rng.pick(&[500u64, 2000, 5000]);
+            c.active_timeout_ms = *rng.pick(&[10_000u64, 20_000, 60_000]);
+        }
+    }
     let cad = |rng: &mut Rng| -> (u64, u64) {
-        match rng.below(6) {
+        match if idle_focus { *rng.pick(&[0u64, 1, 2, 5]) } else { rng.below(6) } {
             0 => (MS, MS),
             1 => (10 * MS, 10 * MS),
             2 => (100 * MS, 100 * MS),
@@ -1202,11 +1246,11 @@ pub fn run_timers(seed: u64, params: &Params, out: &mut ScnOut) {
             return;
         }
     };
-    let busy_until = rng.range(0, blackout_from / SEC) * SEC;
+    let busy_until = if idle_focus { rng.range(1, 6) * SEC } else { rng.range(0, blackout_from / SEC) * SEC };
     // disconnect attempt: one side calls disconnect some time after ITS Connect event (also within
     // the 2 s in which a handshake resend timer may still be pending) and the first k of its
     // Disconnect requests (or all of them) are lost
-    let disc_attempt = rng.chance(0.4);
+    let disc_attempt = rng.chance(0.4) && !idle_focus;
     let disc_by_client = rng.chance(0.5);
     let disc_delay = *rng.pick(&[0u64, 50, 500, 1500, 1900, 3000, 10_000]) * MS;
     let disc_lost = *rng.pick(&[0u32, 1, 3, 9, 10, 11, 1000, 1000]);
@@ -1390,8 +1434,9 @@ pub fn run_timers(seed: u64, params: &Params, out: &mut ScnOut) {
             }
         }
     }
-    // ---- keepalive: an idle connection on a loss-free network never times out
-    if !blackout && !disc_called {
+    // ---- keepalive: an idle connection on a loss-free network never times out (lost handshake
+    // ACKs leave the client established long before the server is: not loss-free)
+    if !blackout && !disc_called && lose_ack == 0 {
         let step_max = w.clients[ci].max_step_gap_ns.max(w.server.max_step_gap_ns) / MS;
         for (name, evs, my_to, peer_ka, peer_ka_int) in [
             ("client", w.clients[ci].events.clone(), ccfg.active_timeout_ms, scfg_ep.keepalive, scfg_ep.keepalive_interval_ms),
@@ -1405,7 +1450,18 @@ pub fn run_timers(seed: u64, params: &Params, out: &mut ScnOut) {
             // times out first and the other then starves
             let needed_other = if name == "client" { ccfg.keepalive_interval_ms } else { scfg_ep.keepalive_interval_ms }.max(2000).max(my_rto) + 2 * latency + 2 * step_max + 500;
             let other_ok = if name == "client" { ccfg.keepalive && scfg_ep.active_timeout_ms >= needed_other } else { scfg_ep.keepalive && ccfg.active_timeout_ms >= needed_other };
-            if peer_ka && my_to >= needed && other_ok {
+            // small steps and latencies on a loss-free network: the RTO is max(4 RTT, 2 s/X) with
+            // RTT <= a few hundred ms and X never halved below the recover rate while idle, i.e.
+            // at most 2 s; there the clause is judged without reference to the RTO the endpoints
+            // themselves arrived at (a rate that collapses while idle inflates it)
+            let fast = step_max <= 100 && latency <= 50;
+            let needed_fast = peer_ka_int.max(2000) + 2 * latency + 2 * step_max + 3500;
+            let other_fast = if name == "client" { ccfg.keepalive && scfg_ep.active_timeout_ms >= ccfg.keepalive_interval_ms.max(2000) + 2 * latency + 2 * step_max + 3500 } else { scfg_ep.keepalive && ccfg.active_timeout_ms >= scfg_ep.keepalive_interval_ms.max(2000) + 2 * latency + 2 * step_max + 3500 };
+            let judged_fast = fast && peer_ka && my_to >= needed_fast && other_fast;
+            if judged_fast {
+                w.c.inc("c10_keepalive_cases_checked_fast_domain");
+            }
+            if (peer_ka && my_to >= needed && other_ok) || judged_fast {
                 w.c.inc("c10_keepalive_cases_checked");
                 let connected = evs.iter().any(|e| e.ev == Ev::Connect);
                 // only judge connections whose peer also connected (otherwise nothing is sent)
@@ -1593,7 +1649,12 @@ pub fn run_disconnect(seed: u64, params: &Params, out: &mut ScnOut) {
     let verbose = params.flag("verbose");
     let fault_ns = rng.range(5, 40) * SEC;
     let mut net = faulty_net(&mut rng, fault_ns, false);
-    let call_at = rng.range(500, 6000) * MS;
+    // short sessions too (a call within the first two seconds finds the handshake timers still queued)
+    let call_at = if rng.chance(0.3) { rng.range(50, 1900) } else { rng.range(500, 6000) } * MS;
+    // the first acknowledgements of the disconnect request are lost
+    if rng.chance(0.3) {
+        net.drop_rules.push(DropRule { from: None, to: None, frame_type: "disconnectack", remaining: rng.range(1, 3) as u32 });
+    }
     // sometimes a blackout (one or both ways) begins right after the call
     if rng.chance(0.25) {
         let from = call_at + rng.range(0, 3000) * MS;
@@ -1839,6 +1900,8 @@ pub fn run_limits(seed: u64, params: &Params, out: &mut ScnOut) {
     // completed (their ACKs are lost) arrives from fresh addresses, one more than would fit
     let reconnects = rng.chance(0.5);
     let mut reconnect_at: Vec<Option<u64>> = vec![None; n_clients];
+    let retries = rng.chance(0.6);
+    let mut retried: Vec<bool> = vec![false; n_clients];
     let mut extra_objects: Vec<usize> = Vec::new();
     let late_wave = rng.chance(0.6);
     let late_at = rng.range(26, 48) * SEC;
@@ -1857,6 +1920,16 @@ pub fn run_limits(seed: u64, params: &Params, out: &mut ScnOut) {
                 idx[k] = w.connect_client(mk(&mut rng), client_addr(k), (10 * MS, 40 * MS), None);
                 if idx[k].is_none() {
                     idx[k] = Some(usize::MAX);
+                }
+            }
+            // a client refused with ServerFull tries again from the same address a little later
+            if retries && reconnect_at[k].is_none() && !retried[k] {
+                if let Some(i) = idx[k] {
+                    if i != usize::MAX && w.clients[i].events.iter().any(|e| e.ev == Ev::Error("serverfull")) {
+                        retried[k] = true;
+                        reconnect_at[k] = Some(w.now_ns + rng.range(500, 12_000) * MS);
+                        w.c.inc("c17_retries_after_serverfull");
+                    }
                 }
             }
             if reconnect_at[k].map_or(false, |t| t <= w.now_ns) {
@@ -2106,11 +2179,15 @@ pub fn run_amplify(seed: u64, params: &Params, out: &mut ScnOut) {
         let t0 = rng.range(0, 5000) * MS;
         let nonce = rng.u32();
         plan.push((t0, a, encode(&RFrame::Syn { version: 3, nonce, max_receive_rate: 1_000_000, max_packet_size: 1000, max_receive_alloc: 1_000_000 }), "valid-syn-fresh-nonce"));
-        let kind = rng.below(7);
+        let kind = rng.below(9);
         let n = rng.range(50, 400);
         let gap = rng.range(5, 60) * MS;
         for k in 0..n {
             let f = match kind {
+                // what a real client whose handshake ACK was lost would send next: connection frames
+                // numbered from the nonce of its own SYN (which proves nothing about its address)
+                7 => RFrame::Data { sequence_id: nonce.wrapping_add(k as u32 / 4), nonce: rng.chance(0.5), datagrams: vec![] },
+                8 => if k % 2 == 0 { RFrame::Sync { next_frame_id: Some(nonce.wrapping_add(k as u32 / 8)), next_packet_id: Some(nonce & PID_MASK) } } else { RFrame::Acks { frame_window_base_id: nonce, packet_window_base_id: nonce & PID_MASK, groups: vec![] } },
                 0 => RFrame::Ack { nonce_ack: rng.u32() },
                 1 => RFrame::Disconnect,
                 2 => RFrame::DisconnectAck,
@@ -2130,6 +2207,8 @@ pub fn run_amplify(seed: u64, params: &Params, out: &mut ScnOut) {
     }
     let mut pi = 0;
     let horizon = 55 * SEC;
+    let greet = *rng.pick(&[0usize, 2, 8]);
+    let mut greeted = 0usize;
     while w.now_ns <= horizon && !w.panicked {
         while pi < plan.len() && plan[pi].0 <= w.now_ns {
             let (_, a, ref bytes, label) = plan[pi];
@@ -2145,8 +2224,20 @@ pub fn run_amplify(seed: u64, params: &Params, out: &mut ScnOut) {
             w.inject(addr_of(a), srv, bytes.clone(), 0);
             pi += 1;
         }
-        if w.step_next().is_none() {
-            break;
+        let who = match w.step_next() {
+            Some(x) => x,
+            None => break,
+        };
+        // the server application greets whatever it believes to be a new connection
+        if who.is_none() && greet > 0 {
+            let fresh: Vec<SocketAddr> = w.server.events.iter().skip(greeted).filter(|(_, e)| e.ev == Ev::Connect).map(|(a, _)| *a).collect();
+            greeted = w.server.events.len();
+            for a in fresh {
+                for _ in 0..greet {
+                    w.server_send(a, 1000, 0, 3);
+                }
+                w.c.inc("amp_connections_greeted");
+            }
         }
     }
     // undersized connection requests are ignored entirely
